@@ -283,7 +283,7 @@ extern "C" void vp_enum(int tier, uint64_t seed, uint32_t shard, uint32_t nshard
                 if (tier == 0 && op >= OP_ADD_A && op <= OP_DIV_A && mode != 0 && mode != (int)((seed + op) % 3) + 1) continue;   // quick: assignment forms in nearest + one directed mode
                 VpCase c; std::memset(&c, 0, sizeof c); c.target = t; c.op = op; c.s[0] = mode;
                 size_t fill = 0; uint64_t rot = seed + op + mode;
-                const size_t step = (!unary && n > 150) ? (tier ? 3 : 2) : 1;     // thorough: every third pair of the full lattice (about 5 million pairs per operator and mode)
+                const size_t step = (!unary && n > 150) ? (tier ? 8 : 2) : 1;     // thorough: every eighth pair of the full lattice (about 2 million pairs per operator and mode)
                 for (size_t i = 0; i < n; ++i)
                     for (size_t j = (i % step); j < (unary ? 1 : n); j += step) {
                         unsigned lane = (unsigned)((fill + rot) % W);
